@@ -168,8 +168,8 @@ def case_result(case):
         return core.ood("invalid-combination")
     try:
         S.reference(spec, 0)
-    except S.AlignAmbiguous:
-        return core.ood("ambiguous-alignment")
+    except S.OutOfDomain as e:
+        return core.ood(e.reason)
     ref0 = S.reference(spec, 0)
     n_free = sum(1 for _, _, vary in S.parameter_table(spec) if vary)
     if ref0["penalty"].size - n_free - ref0["number_of_clps"] <= 0:
